@@ -135,6 +135,12 @@ Theorem C26_pointer_eq_refuted :
 Proof. exact Proof.C26.pointer_eq_refuted. Qed.
 Print Assumptions C26_pointer_eq_refuted.
 
+(* in general the pinned code excludes nobody: the announcer is listed whenever the peer store's
+   answer contains its entry (which LocalStore's random choice does with probability n/|group|) *)
+Theorem C26_pointer_eq_never_excludes : forall pol src l x, In x l -> In x (sort_peers_ptr pol src l).
+Proof. exact Proof.C26.pointer_eq_general. Qed.
+Print Assumptions C26_pointer_eq_never_excludes.
+
 (* outside the environment assumption of C26_nodup (an origin that also announced as an agent) a
    peer id is listed twice *)
 Theorem C26_nodup_overlap_refuted :
